@@ -25,7 +25,8 @@ RULE = ("histories of public mutations on MixedEdgeGraph() and ADMG(), universe 
         "bulk / subgraph arguments as list, tuple, generator, set, frozenset, dict keys, str; own label families coincide (container == label) and obj (identity-hashed); a decoy graph runs through all methods before every case (cross-call state); held "
         "iterators as in ASSUMPTIONS; argument spellings (all-keyword calls, 3-tuple edge bunches, EdgeType enum members = unknown "
         "edge type: raises, graph unchanged); attribute edits through G.nodes[n] / layer.edges[u,v]; update(edges, nodes, edge_type); "
-        "edge ops on an unknown edge type raise BEFORE adding the end nodes (repo 50c2392); distinct by op list; non-trivial = the final store holds an edge and at least one op was rejected or a second "
+        "degree(weight=k)/size(weight=k) for the first attribute key (edges lacking it weigh 1): the expectation is computed in "
+        "harness/c02.py from the model's edge+attribute tables (not by the Gallina model); edge ops on an unknown edge type raise BEFORE adding the end nodes (repo 50c2392); distinct by op list; non-trivial = the final store holds an edge and at least one op was rejected or a second "
         "object was allocated")
 EXHAUSTIVE = {"quick": "all histories of length <= 2 over the reduced alphabet, both classes (length 3: seeded sample)",
               "thorough": "all histories of length <= 3 over the reduced alphabet, both classes (length 4: seeded sample)"}
@@ -157,6 +158,38 @@ def _split(objv):
     return d
 
 
+def _weighted_expect(N, d):
+    """degree(weight=k0) / size(weight=k0) for the attribute key k0 = the model's key 0, computed HERE from the model's
+    abstract state (per layer: kind + edge table with attribute codes; entry 0 absent, else 1 + acode with
+    acode % 5 = 0 key absent / 1 + value): an edge without the key weighs 1 (networkx), an Und self loop counts twice,
+    Dir = in + out; size = half the degree sum, per layer and in total"""
+    present = [bool(x) for x in d["nodes"][:N]]
+    degs, sizes = [], []
+    for lay in d["layers"]:
+        if not lay:
+            degs.append([])
+            sizes.append([])
+            continue
+        kind, _, T = lay[0]
+
+        def w(u, v):
+            c = T[u * N + v]
+            if not c:
+                return 0
+            k0 = (c - 1) % 5
+            return 1 if k0 == 0 else k0 - 1
+        deg = []
+        for n in range(N):
+            if kind:   # Dir: out + in
+                x = sum(w(n, v) for v in range(N)) + sum(w(u, n) for u in range(N))
+            else:      # Und: symmetric table, self loop twice
+                x = sum(w(n, v) for v in range(N)) + w(n, n)
+            deg.append(x)
+        degs.append([[(1 + deg[n] if present[n] else 0) for n in range(N)]])
+        sizes.append([sum(deg) / 2])
+    return {"degree_weighted": degs, "size_weighted_layer": sizes, "size_weighted": sum(x[0] for x in sizes if x)}
+
+
 def decode(case, v):
     steps = []
     for st in v[len(_init_ops(case)):]:
@@ -168,6 +201,7 @@ def decode(case, v):
                 d["edges"] = tables
                 d["adj"] = tables
                 d["copy_eq"] = 1
+                d.update(_weighted_expect(case["N"], d))
             objs.append(d)
         steps.append({"outcome": st[0], "objs": objs})
     return steps
@@ -285,6 +319,15 @@ class _Obs:
             return self.per_layer(dg.keys(), lambda nm: (lambda dd: [(1 + dd[U[i]] if present[i] else 0)
                                                                      for i in range(N)])(dict(dg[nm])))
         d["degree"] = g(degree)
+        wk = _KEYS["e"][0]
+
+        def degree_w():
+            dg = G.degree(weight=wk)
+            return self.per_layer(dg.keys(), lambda nm: (lambda dd: [(1 + dd[U[i]] if present[i] else 0)
+                                                                     for i in range(N)])(dict(dg[nm])))
+        d["degree_weighted"] = g(degree_w)
+        d["size_weighted"] = g(lambda: G.size(weight=wk))
+        d["size_weighted_layer"] = g(lambda: self.per_layer(names, lambda nm: G.size(weight=wk, edge_type=nm)))
 
         def ged(u, v):
             r = G.get_edge_data(u, v)
@@ -586,7 +629,8 @@ def run_impl(case):
 # ------------------------------------------------------------------ comparison
 ORDER = ["nodes", "graph_attrs", "layers", "edges", "adj", "has_edge", "has_edge_any", "number_of_edges",
          "number_of_edges_layer", "number_of_edges_uv_layer", "number_of_edges_uv", "size", "size_layer", "neighbors",
-         "degree", "get_edge_data", "to_undirected", "to_directed", "copy_eq"]
+         "degree", "degree_weighted", "size_weighted", "size_weighted_layer", "get_edge_data", "to_undirected", "to_directed",
+         "copy_eq"]
 
 
 def first_diff(case, impl, model):
